@@ -70,7 +70,10 @@ fn kind(d: &Damage) -> &'static str {
     }
 }
 
-const EXTREMES: &[&str] = &["2147483648", "-2147483649", "9223372036854775807", "-9223372036854775808", "18446744073709551616", "1e400", "-0", "0.5", "-1", "1e-400", "4294967296", "NaN"];
+const EXTREMES: &[&str] = &[
+    "2147483648", "-2147483649", "9223372036854775807", "-9223372036854775808", "9223372036854775808", "18446744073709551615", "18446744073709551616",
+    "-9223372036854775809", "1e400", "-1e400", "-0", "0.5", "-1", "1e-400", "4294967296", "NaN", "1E5", "00", "0x10", "1.", ".5", "--1",
+];
 
 fn collect_paths(j: &J, path: &mut Vec<String>, out: &mut Vec<Vec<String>>) {
     out.push(path.clone());
